@@ -554,3 +554,99 @@ def rule_bounds_appended(ctx):
         f_ = RJ.site_formula(fn, mc, ps)
         if f_ != GF.T:
             ctx.report(f"bounds-append:{rel}:conditional", ctx.where(fn.file, mc), f"`{A.render(mc)}` in `expand` runs only under `{GF.canon_text(f_)}`: for the other inputs the collected bounds (the user's `bound(...)` predicates included) are dropped from the impl", {})
+
+
+def _attr_values(ctx, fn, tyname="ContainerAttributes"):
+    """names bound in `fn` (parameters, lets, closure parameters) whose rustc type is (a reference to) `tyname`"""
+    out = {}
+    from .. import types as TY
+
+    for pi, _ in A.find(fn.node, "Pat::Ident"):
+        nm = pi["ident"]["sym"]
+        line, col = TY._linecol(fn.file, pi["ident"]["span"][0])
+        ls = ctx.mir.local_type(fn.file.rel, line, col)
+        ty = ls[0]["ty"] if ls else None
+        if ty and re.sub(r"&|'\w+ |mut ", "", ty).strip().split("::")[-1] == tyname:
+            out[nm] = pi
+    return out
+
+
+def _bounds_consumed(ctx, f, fn, root, fields_of, depth=0):
+    """(consumed?, detail) for the attribute value `root` (a variable name, or `self.<field>`) inside producer `fn`"""
+    from . import reject as RJ
+    from .. import guardf as GF
+
+    sites = []
+    for fe, ps in A.find(fn.block, "Expr::Field"):
+        if A.kind(fe["member"]) != "Member::Named" or fe["member"]["0"]["sym"] != "bounds":
+            continue
+        base = fe["base"]
+        chain = []
+        while A.kind(A.peel(base)) == "Expr::Field":
+            base = A.peel(base)
+            chain.append(base["member"]["0"]["sym"] if A.kind(base["member"]) == "Member::Named" else "?")
+            base = base["base"]
+        base = A.peel(base)
+        if A.kind(base) != "Expr::Path":
+            continue
+        nm = A.path_str(base)
+        full = nm + "".join("." + c for c in reversed(chain))
+        # `self.attrs.common.bounds` -> root `self.attrs`; `attrs.common.bounds` -> root `attrs`
+        if full == root or full.startswith(root + "."):
+            sites.append((fe, ps))
+    fms = [RJ.site_formula(fn, n_, ps_) for n_, ps_ in sites]
+    if fms:
+        whole = GF.f_or(fms) if len(fms) > 1 else fms[0]
+        if whole == GF.T or GF.equivalent(whole, GF.T)[0]:
+            return True, f"{len(sites)} read(s), together unconditional"
+    # handed on whole: `Expansion { attrs: &root, .. }` + `.generate_bounds()`
+    if depth < 2 and "." not in root:
+        for lit, _ in A.find(fn.block, "Expr::Struct"):
+            sname = A.path_last(lit["path"])
+            for fv in lit["fields"]:
+                v = A.peel(fv["expr"])
+                while A.kind(v) in ("Expr::Reference", "Expr::Paren", "Expr::Group"):
+                    v = v["expr"]
+                if A.kind(v) == "Expr::Path" and A.path_str(v) == root and A.kind(fv["member"]) == "Member::Named":
+                    fld = fv["member"]["0"]["sym"]
+                    gb = [g for g in A.functions(f) if g.qual == f"{sname}::generate_bounds" and g.block is not None]
+                    if gb and list(A.method_calls(fn.block, "generate_bounds")):
+                        ok, why = _bounds_consumed(ctx, f, gb[0], f"self.{fld}", fields_of, depth + 1)
+                        if ok:
+                            return True, f"handed to `{sname}::generate_bounds` as `{fld}` ({why})"
+                        return False, f"handed to `{sname}::generate_bounds` as `{fld}`, which reads its `bounds` only under `{why}`"
+    if fms:
+        return False, GF.canon_text(GF.f_or(fms) if len(fms) > 1 else fms[0])
+    return False, "never"
+
+
+def rule_user_bounds_flow(ctx):
+    """USER-BOUNDS: every `bound(...)` list the fmt derives parse reaches the impl: in each function of `fmt/display.rs` / `fmt/debug.rs` that produces where-predicates (`-> .. Vec<syn::WherePredicate> ..`), every value of type `ContainerAttributes` it holds - a parameter, a local parsed from a variant's attributes, `self.<field>` of an `Expansion` - has its `bounds` read on all paths (the disjunction of the conditions of the reads is a tautology), or is handed whole to an `Expansion` whose `generate_bounds` does so. A `bound(..)` that is parsed and then read only when a format literal is present, or an enum-level one that is never read, is an accepted attribute silently ignored: the impl is *less* bounded than the user said (C04 'plus any `bound(...)` predicates', C17)."""
+    n = 0
+    for rel in ("impl/src/fmt/display.rs", "impl/src/fmt/debug.rs"):
+        f = ctx.files.get(rel)
+        if f is None:
+            raise A.AnchorLost(rel, "file missing")
+        fields_of = {}
+        for it in f.ast["items"]:
+            if A.kind(it) == "Item::Struct" and A.kind(it["fields"]) == "Fields::Named":
+                fields_of[it["ident"]["sym"]] = [fd["ident"]["sym"] for fd in it["fields"]["named"] if "ContainerAttributes" in A.expr_text(f, fd["ty"])]
+        for fn in A.functions(f):
+            if fn.block is None:
+                continue
+            out = fn.node["sig"].get("output")
+            rt = A.expr_text(f, out[1] if isinstance(out, list) else out) if out and out != "ReturnType::Default" else ""
+            if "WherePredicate" not in rt:
+                continue
+            roots = sorted(_attr_values(ctx, fn))
+            owner = fn.qual.split("::")[0] if "::" in fn.qual else None
+            if owner in fields_of and fn.node["sig"]["inputs"] and A.kind(fn.node["sig"]["inputs"][0]) == "FnArg::Receiver":
+                roots += [f"self.{x}" for x in fields_of[owner]]
+            for root in roots:
+                n += 1
+                ok, why = _bounds_consumed(ctx, f, fn, root, fields_of)
+                key = f"{rel}::{fn.qual}:{root}"
+                ctx.instance(f"user-bounds:{key}", sample={"producer": f"{rel}::{fn.qual}", "attributes": root, "consumed": ok, "how": why})
+                if not ok:
+                    ctx.report(f"user-bounds:{key}", ctx.where(f, fn.node), f"`{fn.qual}` holds the parsed attributes `{root}` but adds their `bound(...)` predicates to the impl {'only under `' + why + '`' if why not in ('never',) and not why.startswith('handed') else why if why.startswith('handed') else 'on no path'}: for the other inputs a `bound(..)` the derive accepted is silently dropped and the impl is less constrained than the user asked", {})
+    ctx.floor("attribute values in bound producers", n, 7)
